@@ -23,7 +23,7 @@ def reg_oracle(scr, out):
 def run(ctx):
     if not hc.ensure_builds(ctx, ('default', 'alt')): hc.finish(ctx, 'builds failed')
     n = 400 if ctx.quick() else 8000
-    H, impl, model, dis, hits = hc.run_profile(ctx, profiles.C17, n, extra_oracle=reg_oracle, claims=lambda op, a, b: op in ('KG', 'RF'))
+    H, impl, model, dis, hits = hc.run_profile(ctx, profiles.C17, n, extra_oracle=reg_oracle, claims=lambda op, a, b: op in ('KG', 'RF', 'RFBAD'))
     import objcheck
     objcheck.tracing(ctx, profiles.C17, 40 if ctx.quick() else 400)
     hc.vm_crosscheck(ctx, H, model)
